@@ -4,6 +4,7 @@ package main
 
 import (
 	"errors"
+	"fmt"
 	"io"
 	"os"
 	"sync"
@@ -19,6 +20,9 @@ type memFile struct {
 	// turns into the given status code. A failing ReadAt first fills in the bytes it "did get" (all but the last one) and
 	// returns their count with the error, as io.ReaderAt allows; a failing WriteAt stores nothing.
 	rfail, wfail map[uint64]uint32
+	// the generic failure (status 4) is reported as an error wrapping io.ErrUnexpectedEOF - what io.ReadFull or a
+	// SectionReader gives when the storage behind a file ends early; it is a failure like any other, not an end of file
+	unexpectedEOF bool
 }
 
 func memPlanErr(code uint32) error {
@@ -44,6 +48,9 @@ func (f *memFile) ReadAt(b []byte, off int64) (int, error) {
 			if n = copy(b, f.data[off:]); n == len(b) && n > 0 {
 				n--
 			}
+		}
+		if code == 4 && f.unexpectedEOF {
+			return n, fmt.Errorf("memFile: storage ended early: %w", io.ErrUnexpectedEOF)
 		}
 		return n, memPlanErr(code)
 	}
